@@ -84,6 +84,10 @@ type Config struct {
 	// when the running thread has blocked (delay-bounded scheduling); the default is
 	// preemption bounding, where choosing among threads after a block is free.
 	DelayBounded bool
+	// TimersFirst (with DelayBounded): due timers are part of the canonical scheduler (they fire first, in
+	// order) and letting one wait costs a delay, instead of every placement of a due timer being free.
+	// For scenarios with many periodic timers due at the same instants, where free placement is exponential.
+	TimersFirst bool
 	// PruneAt, if set, is asked at every choice point beyond the forced prefix whether the
 	// state (fingerprint) has already been expanded; the execution then stops there.
 	PruneAt func(fp uint64) bool
@@ -515,6 +519,12 @@ func (s *Exec) pick(from *thread) *thread {
 			costs := make([]int, n)
 			for i := range costs {
 				switch {
+				case s.Cfg.TimersFirst:
+					// delay bounding proper: the canonical scheduler fires due timers in order, then runs the
+					// threads in order; every departure from it (also letting a due timer wait) is one delay
+					if i != 0 {
+						costs[i] = 1
+					}
 				case i < len(en):
 					if (curEn || s.Cfg.DelayBounded) && i != 0 {
 						costs[i] = 1
@@ -538,6 +548,11 @@ func (s *Exec) pick(from *thread) *thread {
 			}
 		}
 		switch {
+		case s.Cfg.TimersFirst && idx < len(due):
+			s.fire(due[idx])
+			continue
+		case s.Cfg.TimersFirst && idx < len(due)+len(en):
+			return en[idx-len(due)]
 		case idx < len(en):
 			return en[idx]
 		case idx < len(en)+len(due):
